@@ -155,7 +155,7 @@ def run_one(args):
     period = 2 if os.path.basename(d) == "C16" else 4
     entry = args[3] if len(args) > 3 else ("internal" if k % period == period - 1 else "server")
     # every fifth run uses the optimised (release) build of the harness — the build users deploy; same hooks, same replay
-    release = (k % 5 == 2)
+    release = args[4] if len(args) > 4 else (k % 5 == 2)
     res = solve.run_solve(d, "c%d" % k, inst, release=release, pipemodel=True, entry=entry)
     res["inst"] = inst
     res["k"] = k
@@ -177,9 +177,11 @@ def main(pid, tier, seed):
     corpus = lib.load_corpus(pid)
     insts = corpus + [instgen.gen_instance(rng, profile_for(pid, rng)) for _ in range(n)]
     jobs = [(d, k, inst) for k, inst in enumerate(insts)]
-    # corpus instances once more through the other entry point
-    jobs += [(d, len(insts) + j, inst, "server" if (j % (2 if pid == "C16" else 4)) == (1 if pid == "C16" else 3) else "internal")
-             for j, inst in enumerate(corpus)]
+    # corpus instances: both entry points in the debug build, and the optimised build
+    jobs = [(d, k, inst) for k, inst in enumerate(insts) if k >= len(corpus)]
+    for j, inst in enumerate(corpus):
+        jobs += [(d, j, inst, "server", False), (d, len(insts) + 2 * j, inst, "internal", False),
+                 (d, len(insts) + 2 * j + 1, inst, "server", True)]
     results = lib.pmap(run_one, jobs)
     return conclude(pid, tier, seed, t0, proof, results, CONF[pid]["what"])
 
